@@ -225,6 +225,24 @@ def scenarios(rng: random.Random, tier: str) -> list[str]:
         for k in sorted({max(1, cer_t - 1), cer_t, cer_t + 1, cer_t + 2}):
             out.append(cfg + f" | start fail | acc | adv {k} | tick")
             out.append(cfg + f" | start fail | acc | adv {k} | rx 1 " + nodegen.cer("peer2.x", "4", 71, 72) + " | tick")
+    # (lines of the implementation that tools/implcov.py showed no scenario reached)
+    # a CEA announcing its applications inside Vendor-Specific-Application-Id AVPs only / as well
+    for extra in (",vauth=4", ",vacct=3", ",vauth=4+99,vacct=3", ",vauth=99"):
+        for a in ("99", "4"):
+            out.append(nodegen.CONFIGS["out"] + " | start ok,ok | rx 0 " + nodegen.cea(2001, "peer1.x", 2001, 268435464, auth=a) + extra +
+                       " | tick | rx 0 " + nodegen.dwr(87, 88) + " | tick")
+    # a CEA whose Origin-Host is not the dialled peer (an identity the node does not know / another configured peer)
+    for who in ("stranger.x", "peer2.x", "PEER1.X"):
+        out.append(nodegen.CONFIGS["out"] + " | start ok,ok | rx 0 " + nodegen.cea(2001, who, 2001, 268435464) + " | tick | rx 0 " +
+                   nodegen.dwr(89, 90, who) + " | rx 0 " + nodegen.ccr(93, 94, who) + " | tick")
+    # a configured peer that carries the node's own name sends a CER while the node has a connection of its own: the
+    # election of RFC 6733 5.6.4 (the only input for which `receive_cer` finds "other connections")
+    own = (f"NODE host={nodegen.HOST};realm={nodegen.REALM};peer:peer1.x,{nodegen.REALM},1,0,30,1,0,-,-,-,-;"
+           f"peer:{nodegen.HOST},{nodegen.REALM},0,0,30,1,0,-,-,-,-;app:4,1,0,b,0,0+1,-")
+    out.append(own + " | start ok | acc | rx 1 " + nodegen.cer(nodegen.HOST, "4", 95, 96) + " | tick | rx 1 " + nodegen.dwr(97, 98, nodegen.HOST) + " | tick")
+    out.append(own + " | start ok | rx 0 " + nodegen.cea(2001, "peer1.x", 2001, 268435464) + " | acc | rx 1 " + nodegen.cer(nodegen.HOST, "4", 95, 96) +
+               " | tick | rx 0 " + nodegen.dwr(97, 98) + " | tick")
+    out.append(own + " | start fail | acc | rx 0 " + nodegen.cer(nodegen.HOST, "4", 95, 96) + " | acc | rx 1 " + nodegen.cer(nodegen.HOST, "4", 99, 100) + " | tick")
     # random deeper
     for i in range(150 if tier == "quick" else 3000):
         cfgn = rng.choice(["basic", "two", "out", "noapp"])
